@@ -121,6 +121,33 @@ SigOpsOfOps(ops, accurate) ==
   IN FoldLeft(Step, 0, [i \in 1..Len(ops) |-> i])
 SigOps(s, accurate) == SigOpsOfOps(RawOps(s).ops, accurate)
 
+\* The same count as a byte-at-a-time automaton (one left fold, no list of
+\* operations): used for long scripts; MC_Script checks it equal to SigOps.
+\* State: mode "op" / "len" (reading w length bytes) / "data" (skipping need
+\* bytes) / "dead" (a push that can never complete); last = previous opcode.
+SigOpsAuto(s, accurate) ==
+  LET Init0 == [mode |-> "op", need |-> 0, acc |-> 0, k |-> 0, last |-> 255, cnt |-> 0]
+      Fin(st, len) == IF len = 0 THEN [st EXCEPT !.mode = "op"] ELSE [st EXCEPT !.mode = "data", !.need = len]
+      StepB(st, b) ==
+        CASE st.mode = "dead" -> st
+          [] st.mode = "data" -> IF st.need = 1 THEN [st EXCEPT !.mode = "op", !.need = 0] ELSE [st EXCEPT !.need = @ - 1]
+          [] st.mode = "len" ->
+               IF st.k = 3 /\ b >= 64 THEN [st EXCEPT !.mode = "dead"]
+               ELSE LET acc2 == st.acc + b * (CASE st.k = 0 -> 1 [] st.k = 1 -> 256 [] st.k = 2 -> 65536 [] st.k = 3 -> 16777216) IN
+                    IF st.need = 1 THEN Fin([st EXCEPT !.acc = acc2], acc2)
+                    ELSE [st EXCEPT !.acc = acc2, !.k = @ + 1, !.need = @ - 1]
+          [] st.mode = "op" ->
+               IF b < OP_PUSHDATA1 THEN Fin([st EXCEPT !.last = b], b)
+               ELSE IF b <= OP_PUSHDATA4
+                    THEN [st EXCEPT !.mode = "len", !.need = (IF b = OP_PUSHDATA1 THEN 1 ELSE IF b = OP_PUSHDATA2 THEN 2 ELSE 4),
+                                    !.acc = 0, !.k = 0, !.last = b]
+               ELSE [st EXCEPT !.last = b,
+                               !.cnt = IF b \in {OP_CHECKSIG, OP_CHECKSIGVERIFY} THEN @ + 1
+                                       ELSE IF b \in {OP_CHECKMULTISIG, OP_CHECKMULTISIGVERIFY}
+                                            THEN (IF accurate /\ st.last >= OP_1 /\ st.last <= OP_16 THEN @ + (st.last - OP_1 + 1) ELSE @ + 20)
+                                       ELSE @]
+  IN FoldLeft(StepB, Init0, s).cnt
+
 \* ------------------------------------------------------------ FindAndDelete
 \* remove every occurrence of pat that starts at an operation boundary
 \* (Core FindAndDelete); s must parse
